@@ -488,6 +488,19 @@ func run(c *Ctx) {
 	}
 	crec(nil)
 	c.Dist["nested-block-comment-inputs"] = ncm
+	// grouped expressions and lists with trailing / doubled / leading commas in every context (a parenthesised list is only legal
+	// before =>; what the list parsers hand back for an empty tail must not become a silently missing child)
+	ngr := 0
+	inners := []string{"(a,)", "(a,b,)", "(,)", "()", "(a b)", "(a,,b)", "(a,)=>", "(..)", "(a,..)", "(a=1,)", "(1,)", "(ab,)", "[a,]", "[,]", "[a,,b]", "{1:2,}", "{,}", "{1:}", "f(a,)", "f(,)", "f(a,,b)", "func(a,){a}", "func(,){1}", "(a,b)=>", "(a,)=>a", "a[1,]", "a[,1]", "print(1,)", "len(,)"}
+	for _, in := range inners {
+		for _, cx := range []string{"%s", "x = %s", "-%s", "!%s", "[ %s ]", "f(%s)", "%s + 1", "1 + %s", "{1:%s}", "if %s {1}", "func(n) { r = %s; r }", "y = [ %s, 2 ]", "%s\nz", "z\n%s", "return %s", "%s.k", "%s[0]", "%s(1)"} {
+			src := []byte(fmt.Sprintf(cx, in))
+			one(c, src, false, true, &st)
+			one(c, src, true, true, &st)
+			ngr++
+		}
+	}
+	c.Dist["grouped-list-inputs"] = ngr
 	// the entry points in front of the parser: shebang scripts and their truncations, every byte after "#!", and a sample
 	// of the inputs above
 	for _, scr := range []string{"#!/usr/bin/env grol -s\nprintln(1)\n", "#!\n", "#! x = )\nf(", "#!grol\r\n[1,\n", "#\n!", "x\n#!y"} {
